@@ -202,8 +202,11 @@ class Wavefront:
             if y is None:
                 y = self.distribution.y
             EPD = self.optic.paraxial.EPD()
-            tilt_correction = ((1 - x) * np.sin(np.radians(x_tilt)) * EPD / 2 +
-                               (1 - y) * np.sin(np.radians(y_tilt)) * EPD / 2)
+            n_object = self.optic.object_surface.material_post.n(
+                self._wavelength)
+            tilt_correction = n_object * (
+                (1 - x) * np.sin(np.radians(x_tilt)) * EPD / 2 +
+                (1 - y) * np.sin(np.radians(y_tilt)) * EPD / 2)
         return opd - tilt_correction
 
     def _opd_image_to_xp(self, xc, yc, zc, R):
